@@ -52,24 +52,25 @@ Proof.
 Qed.
 Print Assumptions C04_tables_agree_with_connectivity.
 
-(* rows are grouped vertex, edge, facet, interior (the order of Element._bfun_counts, regenerated from element.py) and
-   every row is the row of exactly one (kind, slot, k) *)
+(* rows are grouped vertex, edge, facet, interior — the order AND the sizes of Element._bfun_counts (regenerated from
+   element.py) for a reference cell with `length t` vertices, `length t2e` edges (none unless dim = 3) and `length t2f` facets:
+   Nbfun = sum of the counts; every row is the row of exactly one (kind, slot, k) *)
 Theorem C04_row_order :
-  forall dim nd ed fd id off nv ne nf nt t t2e t2f, wf dim fd nv ne nf nt t t2e t2f ->
+  forall dim nd ed fd id off nv ne nf nt t t2e t2f, wf dim fd nv ne nf nt t t2e t2f -> (dim <> 3 -> length t2e = 0) ->
     let D := gen_dofs_init dim nd ed fd id off nv ne nf nt t t2e t2f in
-    length (D_element D) = list_sum (gen_bfun_counts nd (eff_ed dim ed) fd id (length t) (length t2e) (length t2f)) /\
+    length (D_element D) = list_sum (gen_bfun_counts nd ed fd id (length t) (length t2e) (length t2f)) /\
     (forall r, r < length (D_element D) ->
        exists kd s k, s < nslots t t2e t2f kd /\ k < cnt dim nd ed fd id kd /\ r = rowpos dim nd ed fd t t2e t2f kd s k) /\
     rowpos dim nd ed fd t t2e t2f Nodal 0 0 = 0 /\
     rowpos dim nd ed fd t t2e t2f Edge 0 0 = nd * length t /\
-    rowpos dim nd ed fd t t2e t2f Facet 0 0 = nd * length t + eff_ed dim ed * length t2e /\
-    rowpos dim nd ed fd t t2e t2f Interior 0 0 = nd * length t + eff_ed dim ed * length t2e + fd * length t2f.
+    rowpos dim nd ed fd t t2e t2f Facet 0 0 = nd * length t + ed * length t2e /\
+    rowpos dim nd ed fd t t2e t2f Interior 0 0 = nd * length t + ed * length t2e + fd * length t2f.
 Proof.
-  intros dim nd ed fd id off nv ne nf nt t t2e t2f [Hfd _] D. unfold D. rewrite gen_dofs_init_is_model.
-  rewrite gen_bfun_counts_is_model. split; [|split].
-  - rewrite element_rows by exact Hfd. simpl. rewrite !(Nat.mul_comm (length _)). now rewrite Nat.add_0_r, !Nat.add_assoc.
+  intros dim nd ed fd id off nv ne nf nt t t2e t2f [Hfd _] H3 D. unfold D. rewrite gen_dofs_init_is_model.
+  rewrite gen_bfun_counts_is_model. pose proof (eff_ed_slots dim ed (length t2e) H3) as He. split; [|split].
+  - rewrite element_rows by exact Hfd. simpl. lia.
   - now apply row_decompose.
-  - simpl. repeat split; rewrite ?(Nat.mul_comm (length _)); rewrite ?Nat.add_0_r, ?Nat.add_assoc; reflexivity.
+  - simpl. repeat split; lia.
 Qed.
 Print Assumptions C04_row_order.
 
